@@ -35,7 +35,7 @@ class Minus(nn.Module):
 
 
 def cases(tier, seed):
-    rs, rt = (12, 10) if tier == "quick" else (150, 100)
+    rs, rt = (12, 10) if tier == "quick" else (600, 400)
     out = []
     for nt in zoo.NOISE_TYPES:
         for r in range(rs):
